@@ -42,7 +42,7 @@ def variants(recipe, rng):
         r = dict(recipe)
         r["values"] = [vals[i] for i in p]
         out.append(("perm", r))
-    for idx in ("str", "dup", "mixed", "rev"):
+    for idx in ("str", "dup", "mixed", "rev", "same"):
         r = dict(recipe)
         r["index"] = idx
         out.append(("relabel", r))
@@ -99,6 +99,11 @@ def run(tier, seed, n=None, nproc=16):
         if len(r["values"]) > 8:
             r["values"] = r["values"][:8]
         recipes.append(r)
+    # witnesses of past failures first: leading-zero float strings next to larger values (index labels matter to a
+    # label-based selection), near-integers, late deviants
+    recipes = [{"values": [["str", "0.5"], ["str", "2"]], "dtype": "object", "index": "default", "name": None, "stream": "corpus:leading-zero-small"},
+               {"values": [["str", "0"], ["str", "12"], ["str", "0.25"]], "dtype": "str", "index": "default", "name": None, "stream": "corpus:leading-zero-small2"},
+               {"values": [["str", "05"], ["str", "2"]], "dtype": "object", "index": "default", "name": None, "stream": "corpus:leading-zero-int"}] + recipes
     chunks = [recipes[i::nproc] for i in range(nproc)]
     with mp.Pool(nproc) as pool:
         outs = pool.map(_worker, [(c, seed) for c in chunks if c])
